@@ -6,8 +6,8 @@
 EXTENDS Cli, Json
 CONSTANTS MaxPresent, WithFx
 \* value palettes as sequences (a set cannot mix numbers, booleans and strings in TLC)
-Pal == [n |-> <<1000, 3500>>, m |-> <<4000, 9000>>, s |-> <<0, 1500>>, a |-> <<500, 250>>, e |-> <<40, 60>>, d |-> <<TRUE>>, R |-> <<TRUE>>,
-        u |-> <<"0", "1", "mix">>, M |-> <<6000, 14500>>, r |-> <<8000>>, c |-> <<2>>, w |-> <<4>>, f |-> <<"raw", "wav">>, L |-> <<TRUE>>, q |-> <<TRUE>>,
+Pal == [n |-> <<1000, 3500>>, m |-> <<4000, 9000>>, s |-> <<0, 1500>>, a |-> <<500, 250, 300>>, e |-> <<40, 60>>, d |-> <<TRUE>>, R |-> <<TRUE>>,
+        u |-> <<"0", "1", "mix">>, M |-> <<6000, 14500>>, r |-> <<8000, 22050>>, c |-> <<2>>, w |-> <<4>>, f |-> <<"raw", "wav">>, L |-> <<TRUE>>, q |-> <<TRUE>>,
         O |-> <<"stream">>, o |-> <<"regions">>, j |-> <<0, 2500>>,
         C |-> <<"consume">>, E |-> <<TRUE>>, G |-> <<"debug">>, D |-> <<TRUE>>, T |-> <<"raw">>, P |-> <<"image">>, I |-> <<2>>, F |-> <<256>>]
 VARIABLES o
